@@ -25,7 +25,7 @@ ASSUMPTIONS = [
     "expressions are pure and total, so hoisting or re-ordering an evaluation is unobservable; values flowing in/out and control flow are what the output depends on",
     "stdout of the module (results of every call, the global and the attribute) is the observable behaviour",
 ]
-BUDGET = {"quick": (1600, 240), "thorough": (16000, 2700)}
+BUDGET = {"quick": (2400, 240), "thorough": (24000, 2700)}
 
 
 def class_scenarios():
